@@ -174,4 +174,48 @@ produce (listed; at most the first three). With the 17 listed as known findings 
      wrong-round pair, a wrong time; its mocks return one validator set for every height, which the
      current-set mutant trips over by asking for another height).
  15 of 15 caught by the quick tier; every run exit 1.
+
+=====================================================================================================
+SEEDED CHANGE C19b (independently written, /verif/seeded/C19b) - first MISSED, now caught
+=====================================================================================================
+
+ mutant   /verif/mutants/c19-seeded-b-iscommitted-on-raw-report.patch (= seeded/C19b/patch.diff), against the tree that
+          has the F2 repair (41c890f): Pool.processConsensusBuffer asks isCommitted(b) - the RAW report of consensus -
+          instead of isCommitted(ev), the evidence rebuilt with the block time and validator set of its height. When
+          the report's time differs from the block time (it always does for a conflicting precommit that arrives
+          after the height was decided: tryAddVote stamps it with the NEXT block's time) the two have different
+          hashes, the committed test misses, and the evidence that the very same Update just marked committed is put
+          back into the pending set and the gossip list; being pending it passes CheckEvidence (fastCheck) again.
+ miss     `./run.sh C19 quick` exited 0 on it. What excluded it:
+          (b) the only reports handed to AddEvidenceFromConsensus were E1 / E2 wrapped CANONICALLY (evidence time =
+              block time, powers of the evidence height), so b and ev were byte-identical and isCommitted(b) ==
+              isCommitted(ev); the needed history cons(report);commit(block with the evidence) was in the alphabet
+              (commit tokens never depended on what the pool holds) but with a report that could not tell the two apart;
+          (c) the monitor delivered the second vote late either at every node of the chosen set or at none, so no
+              node's consensus reported the pair while another node's evidence for it was already going into the
+              next block (with the late delivery everywhere nobody holds evidence before the report is flushed).
+ now      (b) a cons token carries a REPORT: the item's two votes wrapped as tryAddVote wraps them - canonical,
+              "@late" (time of the next block), "@late+set" (that time and the powers of the other validator set);
+              quick: cons(E1), cons(E1@late), cons(Ecur); thorough: all seven. New item Ecur = evidence of the height
+              consensus works on at the base head (6), built by the checker as another node builds it once block 6
+              exists; cons(Ecur) is enabled at heads 5 and 6, the obligation "pending at the latest with the next
+              block" is judged against acceptability at the NEW head. Commit tokens carry every evidence variant
+              known to the search (quick: none, E1, E2, E1sig, E1type, Eold, Ecur, {E1,E2}; thorough adds E1idx, Eexp,
+              Efut, {E1,Ecur}, {E1,E1idx}, {E1,E1}, {E1,E1type}, {E2,Ecur}) whether the pool has it pending, only as a
+              report, or not at all. Whatever a successful commit makes pending (flushed reports) is judged like any
+              newcomer (acceptable at the new head, its double-signing not on the chain). New oracle
+              gossip-list-includes-committed. The state key now contains the buffered reports (read by reflection,
+              so the harness file compiles against trees without the buffer) and, thorough tier, the gossip list.
+          (c) Late=2: the first node of the set gets both precommits during the height, the others get the second one
+              only while waiting in NewHeight of the next height (16 more scenarios in quick, 48 in thorough).
+ result   seeded change: exit 1, twice, identical signatures:
+              C19|part=b|history=cons(E1@late);commit(E1)|oracle=pending-includes-committed
+              C19|part=b|history=cons(E1@late);commit(E1)|oracle=gossip-list-includes-committed
+              C19|part=b|history=cons(E1@late);commit(E1);check(E1)|oracle=recommitted
+              C19|part=c|config=evidence-fits-proposal|oracle=pending-includes-committed|cause={second-vote-at-once-at-one-node-after-decision-at-others,later-height}
+              C19|part=c|config=evidence-fits-proposal|oracle=block-with-evidence-rejected:already-committed|cause={second-vote-at-once-at-one-node-after-decision-at-others,later-height}
+          (not at the initial height: there tryAddVote stamps the genesis time, which IS block 1's time.)
+          unchanged /repo (2b37706): quick exit 0 twice, thorough exit 0 once; the five listed known findings
+          reproduce under their listed signatures (the new tokens sort after "commit(" so the shortest histories of
+          the known findings are unchanged). Cost: quick +15 s CPU (part (b) 1,094 -> 5,566 states at depth 5).
 */
